@@ -216,6 +216,17 @@ def cases(draw, prof):
             taken[side] += list(keep)
             opts = U.nest(keep)
         layers.append({"how": how, "opts": opts})
+    if draw(st.integers(0, 3)) == 0:
+        # two dataset-level layers of the same direction that set DIFFERENT leaves of one section: the later one merges into
+        # the section, it does not replace it
+        side = draw(st.sampled_from(["P", "D"]))
+        hows = ["ds_options", "with_options"] if side == "P" else ["ds_default_options", "with_default_options"]
+        sec = draw(st.sampled_from([["S.X", "S.Y", "S.Z"], ["R.U.V", "R.U.W"]]))
+        k1, k2 = draw(st.permutations(sec))[:2]
+        if not any(related(k, t) for k in (k1, k2) for t in taken[side]):
+            layers.append({"how": draw(st.sampled_from(hows)), "opts": U.nest({k1: draw(U.leaf_value(k1, True))})})
+            layers.append({"how": "with_options" if side == "P" else "with_default_options", "opts": U.nest({k2: draw(U.leaf_value(k2, True))})})
+            taken[side] += [k1, k2]
     if not layers:
         layers = [{"how": "WithOptions", "opts": draw(layer_dicts())}]
     o = draw(U.option_dicts(p_present=draw(st.sampled_from([0.6, 0.9]))))
